@@ -1,4 +1,5 @@
 import LachesisVerif.Proofs.OrdererRestart2
+import LachesisVerif.Proofs.OrdererRestart3c
 import LachesisVerif.Proofs.ElectionExample
 /-!
 # C08 — A restart is invisible
@@ -14,42 +15,49 @@ DB: epoch state, `LastDecidedFrame`; epoch DB: roots table), the volatile part i
 A restart is `Model.Orderer.bootstrap`: the election is re-created for frame `ldf + 1` and the known
 roots are re-voted by `bootstrapElection` (table order: frame, validator, id). For a state of a
 running instance this decides nothing new, because everything decidable was already decided — that
-is L5 of C10, which enters below as the named hypothesis `RunningFeed`.
+is L5 of C10 (in the one-step theorems of the first half it enters as the named hypothesis
+`RunningFeed`; in the second half it is the proved invariant `OpenEl`).
 
-PARTIAL proof. Proved:
+PARTIAL proof (one epoch; the `observe` oracle is the graph's forkless cause before and after).
+
+Proved for whole continuations (second half of this file, `Proofs/OrdererRestart3*.lean`), from L5 as an
+invariant of `process` runs (`OInv`, `OpenEl`; C10):
+* `C08_restart_invisible_partial`: for every valid history with accepted frames and forkers below one
+  third, every parents-first processing order `pre ++ post` of (an ancestry-closed part of) its events
+  and every split point: the instance that processed `pre` can be restarted — `bootstrap` succeeds,
+  emits no block, reports no seal, keeps (epoch, validators, `LastDecidedFrame`, roots table) — and
+  the restarted instance answers every event of `post` exactly like the instance that kept running
+  (all accepted, the same decided frames = epoch, frame, Atropos, sealed flag, per event) and ends
+  with the same persisted state. `C08_restart_invisible_history_partial`: the same read on the
+  history order `0 … n-1` itself, restart after the first `k` events.
+* `C08_restarts_invisible_partial`: restarts at any number of points (`runSegs` restarts before every
+  segment of the order): same answers and same final persisted state as the run without restarts.
+* The hypotheses `RunningFeed`, `Contiguous`, `Setup`, `hunseen` of the one-step theorems below are
+  discharged: `OrdererRestart3.restart_open` (a state reached by running satisfies them in the
+  semantic form `OpenEl`; the restart decides nothing and is `OpenEl` again),
+  `OrdererRestart3.step_agree` / `process_lockstep` / `run_lockstep` (two instances with the same
+  persisted state and `OpenEl` elections go through `Process` in lock-step).
+Remaining hypotheses of these theorems beyond the property's own (valid history, BFT): `hframes`
+(claimed frames obey the frame rule — what `Process` itself checks), `hbound` (frames `< 2^31`),
+`hvals` (canonical validator record; C12), `hobs` (the forkless-cause oracle answers the graph
+relation `N.FC` both before and after the restart — C05 for the vector index; the reload of the
+index from `BranchesInfo` is not modelled), `hseal` (the application does not seal: one epoch).
+Not proved: restarts across epoch seals, the vector index reload, store caches (C33).
+
+Earlier one-step results (kept; first half of this file):
 * `C08_persisted_unchanged` (unconditional): `bootstrap` changes nothing of the persisted part unless it
   decides a frame, and then reports `sealed = false`; `C08_volatile_irrelevant`: its result does not
   depend on the volatile part at all. `C08_sync`: `LastDecidedFrame + 1 = frameToDecide` and the
-  election's validators = the epoch's are invariants of `process` / hold after `initial` (so the
-  election re-created by `Bootstrap` is for the frame the running election was deciding).
-* `C08_restart_election_equiv_partial`: under the hypotheses of `C10_single_election_partial` for the
-  open election (`Setup`: canonical validators, `observe` = graph forkless cause, roots table = the
-  roots of the graph, slot uniqueness — discharged from BFT by L2 —, accepted frames) and the named
-  hypotheses below, `bootstrap` returns the same persisted state, decides nothing, and its election is
-  `ElEquiv` to the running one: the same subjects are decided, with the same yes/no and the same
-  observed root, these being the graph-level `DecidedYes/DecidedNo`; every known root of a later frame
-  has a stored vote on every undecided subject in both, with the same yes/no = the graph-level
-  `voteYes` and the same observed root. Hence (`C08_next_root_equiv_partial`) the next `processRoot`
-  gives the same outcome (same error, same Atropos, or nothing and again equivalent elections).
-* `C08_restart_next_process_partial`: the property's sentence for one further `Process` step: the
-  restarted instance accepts/rejects the next event exactly like the running one, reports the same
-  election error if any, emits the same decided frames (blocks, seals, epoch transitions are
-  functions of these: C09), and the persisted states after the step coincide.
-
-Named hypotheses (NOT proved here; they are consequences of the unproved L5 of C10, "the invariant
-maintained by `handleElection` + `bootstrapElection`", and of graph facts):
-* `RunningFeed env s rs` — L5: the running election is the result of feeding, from `reset`, a closed
-  feed `rs` (the arrival order) consisting of exactly the known roots above the frame to decide, and
-  nothing was returned (everything decidable from the known roots has been decided);
-* `Contiguous s.roots f` — no frame without roots below a frame with roots (every root is
-  forkless-caused by a quorum of roots of the previous frame);
-* root frames `< 2^32`; at least one validator;
-* for the next event: `Setup` for the table including the event's roots; no known root
-  forkless-causes the new event (`hunseen`; the new event is nobody's ancestor);
-  `claimed < 2^32`, `selfParentFrame + 1 < 2^32`.
-Also not proved: the lifting from one step to all later steps (needs `RunningFeed` as an invariant =
-L5), restarts that decide frames on start-up, the vector index reload (`BranchesInfo` round-trip; the
-`observe` oracle is assumed to be the same function before and after), store caches (C33).
+  election's validators = the epoch's are invariants of `process` / hold after `initial`.
+* `C08_restart_election_equiv_partial`, `C08_next_root_equiv_partial`,
+  `C08_restart_next_process_partial`: under the named hypotheses `RunningFeed env s rs` (the running
+  election is the result of feeding, from `reset`, a closed feed `rs` of exactly the known roots above
+  the frame to decide, nothing returned), `Contiguous s.roots f`, `Setup` (before and after the next
+  event), `hunseen`, frame bounds: `bootstrap` returns the same persisted state, decides nothing, its
+  election is `ElEquiv` to the running one (same subjects decided the same way with the same observed
+  root = the graph-level `DecidedYes/DecidedNo`; every known later root has a stored vote on every
+  undecided subject in both, equal to the graph-level `voteYes`), the next `processRoot` and the next
+  `Process` step give the same outcome and persisted state.
 -/
 namespace C08
 open Model.Pos Model.Election Model.Orderer ElectionRules ElectionRefine OrdererRestart
@@ -193,5 +201,102 @@ example : ∃ el₂, bootstrap exEnv exS = .ok ({ exS with el := el₂ }, [], fa
     ex_running ex_contiguous (by decide)
 
 end Example
+
+/-! ## Whole continuations (L5 as an invariant)
+
+`Proofs/OrdererRestart3*.lean`. With L5 proved as an invariant of `process` runs (`OInv`, `OpenEl` of
+`Proofs/OrdererRun.lean`; `C10.L5_run_invariant`) the named hypotheses above are discharged:
+`RunningFeed` is replaced by the semantic invariant `OpenEl` (the election stores exactly the votes and
+decisions of the rules for the fed roots, every known root above the frame to decide is fed, nothing
+is decidable), `Contiguous` and `Setup` follow from the exact roots table of an ancestry-closed set of
+processed events (`contiguous_of_table`, `setup_of_table`), `hunseen` is not needed any more. The one
+step is lifted to all later steps by the lock-step invariant "same persisted state, both elections
+open" (`process_lockstep`, `run_lockstep`). -/
+section Whole
+open OrdererProofs OrdererRestart3 VecProofs
+
+/-- **C08 for whole continuations, one restart.** `N`: a valid history with accepted frames, forkers
+    below one third; `pre ++ post`: any parents-first processing order of (an ancestry-closed part
+    of) its events, split anywhere. `sk` = the instance that has processed `pre`. Restarting it
+    (`bootstrap` reads only the persisted part) succeeds, emits no block, reports no seal and keeps
+    the persisted part; then the restarted instance `s₂` and the instance `sk` that kept running
+    answer every event of `post` identically — every event accepted, with the same decided frames
+    `dss[i]` (epoch, frame, Atropos, sealed flag) — and end with the same persisted state (epoch,
+    validators, `LastDecidedFrame`, roots table).
+    `_partial`: hypotheses beyond the property's own (valid history, BFT) are `hframes` (claimed frames
+    obey the frame rule: what `Process` checks), `hbound` (frames `< 2^31`), `hvals` (canonical
+    validator record, C12), `hobs` (the forkless-cause oracle answers the graph relation, before and
+    after the restart: C05, and the reload of the vector index is not modelled), `hseal` (one epoch). -/
+theorem C08_restart_invisible_partial (N : Net) (vals : Vals) (env : Env) (ep : Nat)
+    (hvalid : Valid N.nVals N.h) (hframes : N.FramesAccepted) (hbft : N.BFT) (hbound : FrameBound N)
+    (hvals : ValsOK vals N.nVals N.w) (hobs : ∀ a b, env.observe a b = true ↔ N.FC a b)
+    (hseal : ∀ ep f, env.sealAt ep f = none)
+    (pre post : List Nat) (horder : PFFrom N [] (pre ++ post)) :
+    ∃ (s₂ : OState) (dss : List (List Decided)),
+      bootstrap env (runAll N env pre (initial ep vals)).1 = .ok (s₂, [], false) ∧
+      SamePersisted (runAll N env pre (initial ep vals)).1 s₂ ∧
+      (runAll N env post (runAll N env pre (initial ep vals)).1).2 = dss.map Res.ok ∧
+      (runAll N env post s₂).2 = dss.map Res.ok ∧
+      SamePersisted (runAll N env post (runAll N env pre (initial ep vals)).1).1 (runAll N env post s₂).1 := by
+  have C : Ctx N vals env := ⟨hvalid, hframes, hbft, hbound, hvals, hobs, hseal⟩
+  obtain ⟨I0, O0⟩ := initial_inv C ep
+  rw [pf_append] at horder
+  obtain ⟨_, _, _, _, Ik, Ok, _⟩ := run_lockstep C pre [] [] (initial ep vals) (initial ep vals).el I0 O0 O0 horder.1
+  obtain ⟨el₂, hb, O₂⟩ := restart_open C Ik Ok
+  obtain ⟨dss, a, b, c, _⟩ := run_lockstep C post _ _ _ el₂ Ik Ok O₂ horder.2
+  exact ⟨_, dss, hb, ⟨rfl, rfl, rfl, rfl⟩, a, b, c⟩
+
+/-- the same read on the history itself: process the events `0 … n-1` of a valid history in their
+    order, restart after the first `k` -/
+theorem C08_restart_invisible_history_partial (N : Net) (vals : Vals) (env : Env) (ep : Nat)
+    (hvalid : Valid N.nVals N.h) (hframes : N.FramesAccepted) (hbft : N.BFT) (hbound : FrameBound N)
+    (hvals : ValsOK vals N.nVals N.w) (hobs : ∀ a b, env.observe a b = true ↔ N.FC a b)
+    (hseal : ∀ ep f, env.sealAt ep f = none) (k : Nat) (hk : k ≤ N.h.length) :
+    ∃ (s₂ : OState) (dss : List (List Decided)),
+      bootstrap env (runAll N env (List.range' 0 k) (initial ep vals)).1 = .ok (s₂, [], false) ∧
+      SamePersisted (runAll N env (List.range' 0 k) (initial ep vals)).1 s₂ ∧
+      (runAll N env (List.range' k (N.h.length - k)) (runAll N env (List.range' 0 k) (initial ep vals)).1).2 =
+        dss.map Res.ok ∧
+      (runAll N env (List.range' k (N.h.length - k)) s₂).2 = dss.map Res.ok ∧
+      SamePersisted (runAll N env (List.range' k (N.h.length - k)) (runAll N env (List.range' 0 k) (initial ep vals)).1).1
+        (runAll N env (List.range' k (N.h.length - k)) s₂).1 :=
+  C08_restart_invisible_partial N vals env ep hvalid hframes hbft hbound hvals hobs hseal _ _
+    (pf_split N hvalid k hk)
+
+/-- **Restarts at several points.** `segs`: the processing order cut into segments; `runSegs` restarts
+    the instance before every segment (and fails if a restart errs, decides a frame or reports a
+    seal). It succeeds and gives the same answers and the same final persisted state as the
+    instance that processes `segs.flatten` without any restart. -/
+theorem C08_restarts_invisible_partial (N : Net) (vals : Vals) (env : Env) (ep : Nat)
+    (hvalid : Valid N.nVals N.h) (hframes : N.FramesAccepted) (hbft : N.BFT) (hbound : FrameBound N)
+    (hvals : ValsOK vals N.nVals N.w) (hobs : ∀ a b, env.observe a b = true ↔ N.FC a b)
+    (hseal : ∀ ep f, env.sealAt ep f = none)
+    (segs : List (List Nat)) (horder : PFFrom N [] segs.flatten) :
+    ∃ (dss : List (List Decided)) (s' : OState),
+      runSegs N env segs (initial ep vals) = some (s', dss.map Res.ok) ∧
+      (runAll N env segs.flatten (initial ep vals)).2 = dss.map Res.ok ∧
+      SamePersisted (runAll N env segs.flatten (initial ep vals)).1 s' ∧
+      runIds N env segs.flatten (initial ep vals) [] =
+        some ((runAll N env segs.flatten (initial ep vals)).1, dss.flatten) := by
+  have C : Ctx N vals env := ⟨hvalid, hframes, hbft, hbound, hvals, hobs, hseal⟩
+  obtain ⟨I0, O0⟩ := initial_inv C ep
+  obtain ⟨dss, s', a, b, c⟩ := segs_lockstep C segs [] [] (initial ep vals) (initial ep vals).el I0 O0 O0 horder
+  refine ⟨dss, s', a, b, c, ?_⟩
+  have := runIds_of_runAll N env segs.flatten (initial ep vals) [] dss b
+  simpa using this
+
+/-- non-vacuity: the three-event chain of `Proofs/OrdererFinal.lean` (`Example`), restarted after the
+    second event (and before the first): all hypotheses hold -/
+example : ∃ (dss : List (List Decided)) (s' : OState),
+    runSegs ElectionExample.net OrdererProofs.Example.env [[0, 1], [2]] (initial 1 ElectionExample.vals) =
+      some (s', dss.map Res.ok) ∧
+    (runAll ElectionExample.net OrdererProofs.Example.env [0, 1, 2] (initial 1 ElectionExample.vals)).2 =
+      dss.map Res.ok :=
+  have C := OrdererProofs.Example.ctx
+  let ⟨dss, s', a, b, _⟩ := C08_restarts_invisible_partial ElectionExample.net ElectionExample.vals
+    OrdererProofs.Example.env 1 C.hv C.hfa C.hbft C.hb C.ok C.obs C.noseal [[0, 1], [2]] OrdererProofs.Example.pf
+  ⟨dss, s', a, b⟩
+
+end Whole
 
 end C08
